@@ -1,5 +1,6 @@
 import Logrange.Proofs.TIndexId
 import Logrange.Proofs.Quote
+import Logrange.Proofs.TIndexRun
 /-!
 # C06 — Partition identity is tag-set equality; FROM selects exactly the matches
 
@@ -13,7 +14,7 @@ Selection (`from_tags`, `from_expr`, `from_empty`, `tags_eval_correct`) holds fo
 -/
 namespace Logrange.Props.C06
 open Go Logrange.KV Logrange.Tags Logrange.TagsEval Logrange.TIndexId Logrange.Proofs.KV Logrange.Proofs.Tags
-  Logrange.Proofs.TagsEval Logrange.Proofs.TIndexId
+  Logrange.Proofs.TagsEval Logrange.Proofs.TIndexId Logrange.Proofs.TIndexRun
 
 /-- full statement: whatever the index holds, two accepted non-empty tag texts get the same partition iff they
 denote the same set (false today, see `cex_two_sets_one_partition`) -/
@@ -54,6 +55,58 @@ theorem write_lands_in_its_partition (s : St) (hinv : TInv s) (hsafe : SafeSt s)
     ∃ i, (getOrCreate s t true).2 = .ok i ∧ (∃ e ∈ (getOrCreate s t true).1.tmap, e.2.src = i ∧ e.2.tags = m) ∧
       (∀ e ∈ s.tmap, e.2.tags = m → e.2.src = i) ∧ (∀ e ∈ s.tmap, e ∈ (getOrCreate s t true).1.tmap) :=
   getOrCreate_spec Logrange.Proofs.Quote.quoteContract s hinv hsafe t m hp hne hs
+
+/-! ### End to end: reachable states, the fast path, racing writers, persisted keys -/
+
+/-- **The raw-text fast path is sound on Safe indexes**: a raw text that hits the map is the canonical line of the
+stored set and denotes exactly that set. -/
+theorem fast_path_sound (s : St) (hinv : TInv s) (hsafe : SafeSt s) (raw : Bytes) (td : Desc)
+    (h : lookup s.tmap raw = some td) : raw = line td.tags ∧ parse raw = some td.tags :=
+  Logrange.Proofs.TIndexRun.fast_path_sound s hinv hsafe raw td h
+
+/-- every state reached by a history whose accepted texts denote Safe sets satisfies the invariant and stores Safe
+sets only -/
+theorem reachable_inv (ops : List (Bytes × Bool)) (ho : SafeOps ops) : TInv (run {} ops) ∧ SafeSt (run {} ops) :=
+  Logrange.Proofs.TIndexRun.reachable_inv ops ho
+
+/-- **Same partition iff same set, end to end**: after ANY history of look-ups and creations whose accepted texts
+denote Safe sets (any spellings, incl. texts that take the fast path, rejected texts, look-ups without creation), two
+accepted non-empty Safe texts get the same partition iff they denote the same set. -/
+theorem same_partition_reachable (ops : List (Bytes × Bool)) (ho : SafeOps ops) (t1 t2 : Bytes) (m1 m2 : Map)
+    (hp1 : parse t1 = some m1) (hp2 : parse t2 = some m2) (hne1 : m1 ≠ []) (hne2 : m2 ≠ [])
+    (hs1 : safe m1 = true) (hs2 : safe m2 = true) :
+    ∃ i j, (getOrCreate (run {} ops) t1 true).2 = .ok i ∧
+      (getOrCreate (getOrCreate (run {} ops) t1 true).1 t2 true).2 = .ok j ∧ (i = j ↔ m1 = m2) :=
+  Logrange.Proofs.TIndexRun.same_partition_reachable ops ho t1 t2 m1 m2 hp1 hp2 hne1 hne2 hs1 hs2
+
+/-- **Racing first writes** (K writers, one critical section each; the list is the schedule — the statement holds for
+every list, hence for every order of every multiset of writers): every writer gets a partition, and two writers get
+the same partition iff they wrote the same set. -/
+theorem racing_writers_ids (s : St) (hinv : TInv s) (hsafe : SafeSt s) (ws : List (Bytes × Map)) (hw : Writers ws) :
+    ∃ ids : List Nat, (runRes s (ws.map (·.1))).2 = ids.map Res.ok ∧ ids.length = ws.length ∧
+      ∀ a b (ha : a < ws.length) (hb : b < ws.length) (ia ib : Nat), ids[a]? = some ia → ids[b]? = some ib →
+        (ia = ib ↔ (ws[a]).2 = (ws[b]).2) :=
+  Logrange.Proofs.TIndexRun.racing_writers_ids s hinv hsafe ws hw
+
+/-- … and afterwards, for every schedule, the index holds **exactly one partition per written set**, nothing that was
+there before is lost or moved, and there is no partition for a set nobody wrote. -/
+theorem racing_writers_one_partition (s : St) (hinv : TInv s) (hsafe : SafeSt s) (ws : List (Bytes × Map))
+    (hw : Writers ws) :
+    let s' := (runRes s (ws.map (·.1))).1
+    TInv s' ∧ SafeSt s' ∧ (∀ e ∈ s.tmap, e ∈ s'.tmap) ∧
+    (∀ w ∈ ws, ∃ e ∈ s'.tmap, e.2.tags = w.2 ∧ ∀ e' ∈ s'.tmap, e'.2.tags = w.2 → e' = e) ∧
+    (∀ e ∈ s'.tmap, e ∈ s.tmap ∨ ∃ w ∈ ws, e.2.tags = w.2) :=
+  Logrange.Proofs.TIndexRun.racing_writers_one_partition s hinv hsafe ws hw
+
+/-- **Persisted index keys**: every key the index stores is the canonical line of its partition's set, and on a Safe
+index `loadState`'s re-parse of a key gives back exactly that set … -/
+theorem tindex_keys_reparse_partial (s : St) (hinv : TInv s) (hsafe : SafeSt s) :
+    ∀ e ∈ s.tmap, e.1 = line e.2.tags ∧ parse e.1 = some e.2.tags :=
+  fun e he => ⟨(hinv.1 e he).1, tindex_keys_reparse s hinv hsafe e he⟩
+
+/-- … so saving and loading the index (a clean restart) rebuilds the same map from lines to partitions. -/
+theorem load_save_partial (s : St) (hinv : TInv s) (hsafe : SafeSt s) : loadEntries (saveState s) = some s.tmap :=
+  load_save s hinv hsafe
 
 /-- **FROM {tags}** selects exactly the partitions whose tag set contains all given pairs. -/
 theorem from_tags (so : StrOps) (s : St) (t : Map) :
@@ -100,6 +153,13 @@ theorem cex_fast_path_capture :
     (getOrCreate {} [97,61,34,32,99,32,34] true).2 = .ok 0 ∧
     (getOrCreate (getOrCreate {} [97,61,34,32,99,32,34] true).1 [97,61,32,99,32] true).2 = .ok 0 := by decide +kernel
 
+/-- outside the Safe class a persisted key is not read back: the index holding {a: `x"y`} cannot be loaded again (the
+server refuses to start), the one holding {a: ` c `} comes back with another set -/
+theorem cex_load_unsafe_key :
+    loadEntries (saveState (run {} [([97,61,34,120,92,34,121,34], true)])) = none ∧
+    (loadEntries (saveState (run {} [([97,61,34,32,99,32,34], true)]))).map (fun l => l.map (fun e => e.2.tags)) =
+      some [[([97],[99])]] := by decide +kernel
+
 theorem same_partition_full_false : ¬ same_partition_full := by
   intro h
   obtain ⟨h1, h2, h3, h4⟩ := cex_two_sets_one_partition
@@ -126,5 +186,27 @@ example : parse [123,98,61,50,44,32,97,61,49,125] = some [([97],[49]), ([98],[50
 /-- selection on a population of two partitions -/
 example : (visit ⟨id, id, fun _ _ => some false⟩ (run {} [([97,61,49], true), ([97,61,50,44,98,61,51], true)])
     (.tags [([98],[51])])).map (fun l => l.map (·.src)) = some [1] := by decide +kernel
+
+/-- `racing_writers_ids` is not vacuous: three writers, two spellings of one set and another set -/
+example : Writers [([97,61,49], [([97],[49])]), ([123,97,61,34,49,34,125], [([97],[49])]), ([98,61,50], [([98],[50])])] := by
+  intro w hw
+  simp only [List.mem_cons, List.mem_nil_iff, or_false] at hw
+  rcases hw with rfl | rfl | rfl <;> decide +kernel
+example : (runRes {} [[97,61,49], [123,97,61,34,49,34,125], [98,61,50]]).2 = [.ok 0, .ok 0, .ok 1] := by decide +kernel
+/-- `same_partition_reachable`'s hypothesis: a history of Safe texts (one of them rejected) -/
+example : SafeOps [([97,61,49], true), ([97], true), ([123,98,61,50,125], false)] := by
+  intro op hop m hm
+  simp only [List.mem_cons, List.mem_nil_iff, or_false] at hop
+  rcases hop with rfl | rfl | rfl
+  · have : m = [([97],[49])] := by
+      have h : parse [97,61,49] = some [([97],[49])] := by decide +kernel
+      rw [h] at hm; exact (Option.some.inj hm).symm
+    subst this; decide +kernel
+  · have h : parse [97] = none := by decide +kernel
+    rw [h] at hm; cases hm
+  · have : m = [([98],[50])] := by
+      have h : parse [123,98,61,50,125] = some [([98],[50])] := by decide +kernel
+      rw [h] at hm; exact (Option.some.inj hm).symm
+    subst this; decide +kernel
 
 end Logrange.Props.C06
